@@ -152,4 +152,13 @@ theorem gen_wdq_shape :
     Gen.site_shape_wdq_markDoneArgs_found = true ∧ Gen.site_shape_wdq_GetChunk_found = true := by
   decide
 
+/-- **regenerated obligation**: one machine per kind of request — `GetChunk`, `HasChunk` and `StoreChunk` each use
+    their own queue and no other; `WriteDedupQueue.GetChunk` looks at the write queue and then delegates -/
+theorem gen_one_queue_per_kind :
+    Gen.dedupQueuesOfGetChunk = ["getChunkQueue"] ∧ Gen.dedupQueuesOfHasChunk = ["hasChunkQueue"] ∧
+    Gen.dedupQueuesOfStoreChunk = ["storeChunkQueue"] ∧
+    Gen.dedupQueuesOfWriteGetChunk = ["storeChunkQueue", "DedupQueue"] ∧
+    Gen.dedupQueuesOfWriteHasChunk = ["DedupQueue"] := by
+  decide
+
 end Desync.C12
